@@ -135,6 +135,11 @@ def r3b_one_transaction_per_operation(ctx):
         for it in imp["items"]:
             if DBLOG in it["path"] and it["path"] in ws.fns:
                 fns.append(ws.fns[it["path"]])
+    # inherent helpers of the database log (insert_records ..) are operations too:
+    # a helper that runs two transactions makes every caller non-atomic
+    for root, f_ in ws.fns.items():
+        if root.startswith(DBLOG + "::<") and "{closure" not in root and f_ not in fns:
+            fns.append(f_)
     memo = {}
     n = 0
     for f in sorted(fns, key=lambda x: x.root):
